@@ -1103,6 +1103,14 @@ func c07Histories(c *harness.Ctx) {
 					return kind == world.KRetrieve && bytes.HasPrefix(key, []byte(node.NoncePrefix))
 				}}
 				c.R.Cover("C07/counter-read-fault-armed")
+			} else if r.Chance(10) {
+				// ... or the read of the role list, during a create or a hand-over (the system
+				// contract's own SetRole / UnSetRole are left alone: a lost read there rewrites the
+				// list, which is the fail-soft design and would only desynchronise the workload)
+				u.W.Fault = &world.FaultPlan{FailAt: 1, Match: func(kind string, key []byte) bool {
+					return kind == world.KRetrieve && bytes.HasPrefix(key, []byte(node.RolePrefix)) && (u.W.CurFunc == FHandOver || u.W.CurFunc == FNFTCreate)
+				}}
+				c.R.Cover("C07/role-read-fault-armed")
 			}
 			switch r.Intn(9) {
 			case 0, 1, 2: // create by the holder
@@ -1152,6 +1160,12 @@ func c07Histories(c *harness.Ctx) {
 				if len(u.N.Pool) > 0 {
 					idx := r.Intn(len(u.N.Pool))
 					m := u.N.Pool[idx]
+					if m.Func == FHandOver && len(m.Args) == 2 && h%3 == 1 {
+						// the counter in a fixed-width / zero-padded encoding (wider than 8 bytes too)
+						m.Args[1] = append(make([]byte, 1+(st*7)%11), m.Args[1]...)
+						m.Data = node.BuildData(m.Func, m.Args)
+						c.R.Cover("C07/handover-counter-padded")
+					}
 					u.N.Deliver(idx)
 					if m.Func == FHandOver && r.Chance(40) {
 						l2 := u.N.DeliverMsg(m) // duplicate, back-to-back
@@ -1262,17 +1276,36 @@ func c08Routes(c *harness.Ctx) {
 		}
 	}
 	// a credit into an account holding a different hash under the same (token, nonce): rejected
-	for k := 0; k < 8; k++ {
+	for k := 0; k < 40; k++ {
 		if !mine(c, k) {
 			continue
 		}
 		s := NewScn(c.Rand("c08h").Fork(uint64(k)), c.R, ScnOpts{Shards: 1 + uint32(k%2), Enabled: []string{"C08"}})
 		u := s.U
 		dst := [][]byte{s.Same, s.Other}[k%2]
-		// seed the destination directly with an entry of the same key but another hash
+		// seed the destination directly with an entry of the same key but another hash: unrelated,
+		// absent, empty, a proper prefix of the real one, the real one plus a byte
 		src := u.W.Account(s.A).Peek([]byte(node.StorageKey(s.SFT, 1)))
 		tok, _ := decodeTok(src)
-		tok.Meta.Hash = []byte("another-hash")
+		real := append([]byte{}, tok.Meta.Hash...)
+		switch k / 8 {
+		case 0:
+			tok.Meta.Hash = []byte("another-hash")
+		case 1:
+			tok.Meta.Hash = nil
+		case 2:
+			tok.Meta.Hash = []byte{}
+		case 3:
+			if len(real) < 2 {
+				continue
+			}
+			tok.Meta.Hash = real[:len(real)-1]
+		default:
+			tok.Meta.Hash = append(real, 0)
+		}
+		if bytes.Equal(tok.Meta.Hash, real) {
+			continue
+		}
 		tok.Value = big.NewInt(1)
 		u.W.Account(dst).Poke([]byte(node.StorageKey(s.SFT, 1)), encodeTok(tok))
 		var call node.Call
